@@ -475,7 +475,7 @@ def intToB64(i, l=1):
     """
     d = deque()  # deque of characters base64
 
-    while l:
+    while l or i:  # l == 0 only suppresses the digit of i == 0, never digits of i > 0
         d.appendleft(B64ChrByIdx[i % 64])
         i = i // 64
         if not i:
